@@ -211,6 +211,15 @@ fn c09_invariant(ctx: &Ctx, world: &mut World, es: &ExpState) -> u64 {
             ctx.violation("c09:supply-disagrees", json!({"denom": d, "Supply": supply.to_string(), "sum_of_balances": sums[d].to_string(), "model": model.to_string(), "history": es.s.name}));
         }
     }
+    // denominations are compared as written: nobody ever held "X" or " x", so both report nothing
+    for d in ["X", "Y", " x", "x "] {
+        n += 1;
+        let supply = world.app.wrap().query_supply(d).map(|c| c.amount.u128()).unwrap_or(u128::MAX);
+        let held: u128 = accounts.iter().map(|a| world.app.wrap().query_balance(a.clone(), d).map(|c| c.amount.u128()).unwrap_or(u128::MAX)).fold(0u128, |x, y| x.saturating_add(y));
+        if supply != 0 || held != 0 {
+            ctx.violation("c09:another-spelling-of-a-denomination-reports-coins", json!({"denom": d, "Supply": supply.to_string(), "sum_of_Balance_answers": held.to_string(), "history": es.s.name}));
+        }
+    }
     let _ = take_trace();
     n
 }
